@@ -2,7 +2,31 @@
 
 CARD = 'cardutil/card.py'
 
+MCI = 'cardutil/mciipm.py'
+
 PROPS = {
+    'C04': {
+        'modules': ['contracts.mciipm_block'],
+        'canaries': [
+            (MCI, "while len(bytes_to_write) > 1012:", "while len(bytes_to_write) > 1014:", "Block1014.write loop bound 1012 -> 1014"),
+            (MCI, "self.remaining_chars = 1012-len(bytes_to_write)", "self.remaining_chars = 1014-len(bytes_to_write)", "remaining_chars from 1014"),
+            (MCI, "self.file_obj.write(self.PAD_CHAR * (self.remaining_chars + 2))", "self.file_obj.write(self.PAD_CHAR * (self.remaining_chars + 1))", "finalise one pad byte short"),
+            (MCI, "bytes_to_write = bytes_to_write[1012:]", "bytes_to_write = bytes_to_write[1013:]", "loop drops a byte per block"),
+            (MCI, "record += (1012 - len(record)) * pad_char", "record += (1011 - len(record)) * pad_char", "block_1014 pads one short"),
+        ],
+        'assumptions': ["induction over write histories is the soundness of object-invariant reasoning: Block1014.__init__ establishes the invariant, write preserves it from EVERY state satisfying it (not only reachable ones), finalise/seek/close are proved from every such state"],
+    },
+    'C05': {
+        'modules': ['contracts.mciipm_block'],
+        'canaries': [
+            (MCI, "self.buffer += block[:1012]", "self.buffer += block[:1013]", "unblocker keeps a trailer byte"),
+            (MCI, "while read_all or len(self.buffer) <= bytes_to_read:", "while read_all or len(self.buffer) < bytes_to_read - 1:", "refill loop stops early"),
+            (MCI, "if record[-2:] != pad_char * 2:", "if record[-1:] != pad_char:", "unblock_1014 checks one trailer byte"),
+            (MCI, "output_data.write(record[0:1012])", "output_data.write(record[0:1013])", "unblock_1014 copies a trailer byte"),
+        ],
+        'assumptions': ["induction over read histories = representation-invariant reasoning (Unblock1014.__init__ establishes, read preserves from every state satisfying it)",
+                        "read(0) is treated like read() by the code (falsy size); the contract covers sizes k >= 1 and the no-size form"],
+    },
     'C15': {
         'modules': ['contracts.card', 'contracts.lemmas'],
         'canaries': [
